@@ -847,10 +847,12 @@ def resolve_references(text: str, *, attr: bool = True) -> str:
         body = text[i + 1 : j]
         if body in named:
             out.append(named[body])
-        elif body[:2] == "#x" and body[2:] and all(ch in "0123456789abcdefABCDEF" for ch in body[2:]):
-            out.append(chr(int(body[2:], 16)))
-        elif body[:1] == "#" and body[1:].isdigit() and body[1:].isascii():
-            out.append(chr(int(body[1:])))
+        elif (body[:2] == "#x" and body[2:] and all(ch in "0123456789abcdefABCDEF" for ch in body[2:])) or (body[:1] == "#" and body[1:].isdigit() and body[1:].isascii()):
+            n = int(body[2:], 16) if body[:2] == "#x" else int(body[1:])
+            # the Char production of XML 1.0
+            if not (n in (0x9, 0xA, 0xD) or 0x20 <= n <= 0xD7FF or 0xE000 <= n <= 0xFFFD or 0x10000 <= n <= 0x10FFFF):
+                raise ValueError(f"reference to a character XML does not allow: &{body};")
+            out.append(chr(n))
         else:
             raise ValueError(f"unknown reference &{body};")
         i = j + 1
